@@ -117,13 +117,23 @@ def mutations():
 
 def header_regex(prog):
     """(pattern, flags, mode) of the recogniser in CheckHeader.check_header, and the call node."""
-    fn = prog.method("CheckHeader", "check_header")
-    if fn is None:
-        raise AnalysisError("anchor vanished: CheckHeader.check_header")
+    ch = prog.cls("CheckHeader")
+    # the method that applies the recogniser: check_header today; any method of the class (helpers merged into run ...)
+    cands = [m for n_, m in sorted(ch.methods.items(), key=lambda kv: (kv[0] != "check_header", kv[0]))]
+    for fn in cands:
+        got = _header_regex_in(fn)
+        if got is not None:
+            return got
+    raise AnalysisError("CheckHeader: cannot find/fold the header regular expression and its application")
+
+
+def _header_regex_in(fn):
+    from ..dataflow import expand_aliases
     # regex = re.compile(P, FLAGS) ; regex.search(context.header)      or      re.search(P, context.header, FLAGS)
     for n in walk_fn(fn.node):
         if isinstance(n, ast.Call) and isinstance(n.func, ast.Attribute) and n.func.attr in ("search", "match", "fullmatch") \
-                and n.args and "header" in text(n.args[-1] if text(n.func.value) != "re" else n.args[1]):
+                and n.args and "header" in text(expand_aliases(fn, n.args[-1] if text(n.func.value) != "re" else
+                                                               (n.args[1] if len(n.args) > 1 else n.args[-1]))):
             mode = n.func.attr
             if text(n.func.value) == "re":
                 pat = fold_in_fn(n.args[0], fn, default=None)
@@ -139,7 +149,7 @@ def header_regex(prog):
                 rc = fold_in_fn(n.func.value, fn, default=None)
                 if isinstance(rc, RegexConst):
                     return rc.pattern, rc.flags, mode, n, fn
-    raise AnalysisError("CheckHeader.check_header: cannot find/fold the header regular expression and its application")
+    return None
 
 
 def rule_language(run, prog):
@@ -170,15 +180,16 @@ def rule_language(run, prog):
     run.ob("R-13.1", f"{fn.key}::accepts-header-then-comment", ok2,
            f"a well-formed header directly followed by another block comment is rejected; shortest rejected member:\n{cex2}" if not ok2 else "included",
            call, product_states=st2["states"])
-    # the result None <=> INVALID_HEADER
-    cond_ok = False
-    for n in walk_fn(fn.node):
-        if isinstance(n, ast.If) and any(isinstance(c, ast.Call) and "INVALID_HEADER" in text(c) for c in ast.walk(n)):
-            t = text(n.test)
-            if t.endswith("is None") or t.startswith("not "):
-                cond_ok = True
+    # the result None <=> INVALID_HEADER: observed on the two-flag machine (block comment, then code) with a stub recogniser
+    try:
+        r_ok, _ = simulate_header_machine(prog, ("mc", "nc"), True)
+        r_ko, _ = simulate_header_machine(prog, ("mc", "nc"), False)
+        cond_ok = r_ok.emitted == [] and r_ko.emitted == ["INVALID_HEADER"] and len(r_ok.searched) == 1 and len(r_ko.searched) == 1
+        why = f"matching: {r_ok.emitted}, not matching: {r_ko.emitted}, applications: {len(r_ok.searched)}/{len(r_ko.searched)}"
+    except Unsupported as e:
+        raise AnalysisError(f"CheckHeader.run is outside the evaluable subset: {e}")
     run.ob("R-13.1", f"{fn.key}::none-means-invalid", cond_ok,
-           "check_header does not emit INVALID_HEADER exactly when the regular expression does not match", fn.node)
+           f"INVALID_HEADER is not emitted exactly when the regular expression does not match ({why})", fn.node)
     tot_states = st["states"]
     tot_trans = st["transitions"]
     for name, items in mutations():
@@ -196,59 +207,82 @@ def rule_language(run, prog):
 class _Recorder:
     def __init__(self):
         self.emitted: List[str] = []
+        self.searched: List[str] = []      # the strings handed to the regular expression
 
 
-def rule_machine(run, prog):
-    run.rule("R-13.3", "typestate: CheckHeader.run interpreted by the analyser over every sequence (length <= 5) of abstract "
-             "statements {block comment, other comment, non-comment} x {regex matches, fails}: INVALID_HEADER is emitted at "
-             "most once, exactly once when the file does not begin with accepted block comments, never for an accepted header; "
-             "CheckHeader is live in slot _rule", floor=3)
+def simulate_header_machine(prog, seq, rx_ok: bool):
+    """CheckHeader.run interpreted (minieval) over a sequence of abstract statements -- "mc" block comment, "oc" // comment,
+    "nc" anything else -- with a stub regular expression that matches (rx_ok) or not.  -> (_Recorder, emitted_at indexes)."""
     ch = prog.cls("CheckHeader")
     methods = {("CheckHeader", n): m.node for n, m in ch.methods.items()}
     ctx = prog.cls("Context")
     for n in ("peek_token", "check_token"):
         methods[("Context", n)] = ctx.methods[n].node
     runm = ch.methods.get("run")
+    if runm is None:
+        raise AnalysisError("anchor vanished: CheckHeader.run")
+    rec = _Recorder()
+    context = Obj("Context", header_started=False, header_parsed=False, header="", history=[], tokens=[])
+
+    def new_error(code, tok, rec=rec):
+        rec.emitted.append(code)
+
+    def apply(s, *a, rec=rec):
+        rec.searched.append(s)
+        return Obj("Match") if rx_ok else None
+
+    def compile_(pattern, flags=0):
+        return Obj("Pattern", _native={"search": apply, "match": apply, "fullmatch": apply})
+
+    flags = {"DOTALL": 16, "S": 16, "VERBOSE": 64, "X": 64, "MULTILINE": 8, "M": 8, "IGNORECASE": 2, "I": 2, "ASCII": 256, "A": 256}
+    remod = {"compile": compile_, "search": lambda p, s, f=0: apply(s), "match": lambda p, s, f=0: apply(s),
+             "fullmatch": lambda p, s, f=0: apply(s)}
+    remod.update(flags)
+    ev = Evaluator(methods, natives={("Context", "new_error"): new_error, ("Context", "new_warning"): new_error},
+                   modules={"re": remod}, max_steps=200000)
+    # patterns compiled at module level / string constants hoisted there
+    for nm, vals in ch.mod.assigns.items():
+        if len(vals) == 1 and isinstance(vals[0], ast.Call) and text(vals[0].func) == "re.compile":
+            ev.globals[nm] = compile_("", 0)
+        elif len(vals) == 1 and isinstance(vals[0], ast.expr):
+            v = fold_in_fn(vals[0], runm, default=None)
+            if isinstance(v, (str, int, tuple)):
+                ev.globals[nm] = v
+    me = Obj("CheckHeader", context=context, name="CheckHeader")
+    emitted_at = []
+    for i, k in enumerate(seq):
+        context.history.append("IsComment" if k in ("mc", "oc") else "IsVarDeclaration")
+        if k == "mc":
+            context.tokens = [Obj("Token", type="MULT_COMMENT", value=f"/* {i} */", pos=(i + 1, 1))]
+        elif k == "oc":
+            context.tokens = [Obj("Token", type="COMMENT", value=f"// {i}", pos=(i + 1, 1))]
+        else:
+            context.tokens = [Obj("Token", type="INT", value=None, pos=(i + 1, 1))]
+        before = len(rec.emitted)
+        ev.steps = 0
+        ev.call_function(runm.node, {"self": me, "context": context})
+        emitted_at += [i] * (len(rec.emitted) - before)
+    return rec, emitted_at
+
+
+def rule_machine(run, prog):
+    run.rule("R-13.3", "typestate: CheckHeader.run interpreted by the analyser over every sequence (length <= 5) of abstract "
+             "statements {block comment, other comment, non-comment} x {regex matches, fails}: INVALID_HEADER is emitted at "
+             "most once, exactly once when the file does not begin with accepted block comments, never for an accepted header; "
+             "the text handed to the recogniser is the concatenation of the leading block comments; CheckHeader is live in "
+             "slot _rule", floor=3)
+    ch = prog.cls("CheckHeader")
+    runm = ch.methods.get("run")
     run.require(runm is not None, "anchor vanished: CheckHeader.run")
     KINDS = ("mc", "oc", "nc")       # block comment first / other comment / non-comment statement
     n_seq = 0
     bad = None
+    bad_text = None
     try:
         for L in range(1, 6):
             for seq in itertools.product(KINDS, repeat=L):
                 for rx_ok in (True, False):
-                    rec = _Recorder()
-                    context = Obj("Context", header_started=False, header_parsed=False, header="", history=[], tokens=[])
-
-                    def new_error(code, tok, rec=rec):
-                        rec.emitted.append(code)
-
-                    def compile_(pattern, flags=0, rx_ok=rx_ok):
-                        return Obj("Pattern", _native={"search": lambda s: (Obj("Match") if rx_ok else None),
-                                                       "match": lambda s: (Obj("Match") if rx_ok else None),
-                                                       "fullmatch": lambda s: (Obj("Match") if rx_ok else None)})
-
-                    ev = Evaluator(methods, natives={("Context", "new_error"): new_error, ("Context", "new_warning"): new_error},
-                                   modules={"re": {"compile": compile_, "DOTALL": 16, "search": lambda p, s, f=0: (Obj("Match") if rx_ok else None)}},
-                                   max_steps=200000)
-                    # patterns compiled at module level
-                    for nm, vals in ch.mod.assigns.items():
-                        if len(vals) == 1 and isinstance(vals[0], ast.Call) and text(vals[0].func) == "re.compile":
-                            ev.globals[nm] = compile_("", 0)
-                    me = Obj("CheckHeader", context=context, name="CheckHeader")
-                    emitted_at = []
-                    for i, k in enumerate(seq):
-                        context.history.append("IsComment" if k in ("mc", "oc") else "IsVarDeclaration")
-                        if k == "mc":
-                            context.tokens = [Obj("Token", type="MULT_COMMENT", value="/* x */", pos=(i + 1, 1))]
-                        elif k == "oc":
-                            context.tokens = [Obj("Token", type="COMMENT", value="// x", pos=(i + 1, 1))]
-                        else:
-                            context.tokens = [Obj("Token", type="INT", value=None, pos=(i + 1, 1))]
-                        before = len(rec.emitted)
-                        ev.steps = 0
-                        ev.call_function(runm.node, {"self": me, "context": context})
-                        emitted_at += [i] * (len(rec.emitted) - before)
+                    rec, _ = simulate_header_machine(prog, seq, rx_ok)
                     n_seq += 1
                     # expectation
                     lead = 0
@@ -265,6 +299,10 @@ def rule_machine(run, prog):
                     got = [c for c in rec.emitted if c == "INVALID_HEADER"]
                     if (len(got) != want or len(rec.emitted) != len(got)) and bad is None:
                         bad = (seq, rx_ok, rec.emitted, want)
+                    if 0 < lead < len(seq) and seq[lead] == "nc" and bad_text is None:
+                        expect = "".join(f"/* {i} */\n" for i in range(lead))
+                        if rec.searched != [expect]:
+                            bad_text = (seq, rec.searched, expect)
     except Unsupported as e:
         raise AnalysisError(f"CheckHeader.run is outside the evaluable subset: {e}")
     run.ob("R-13.3", f"{runm.key}::two-flag-machine", bad is None,
@@ -275,8 +313,10 @@ def rule_machine(run, prog):
            "CheckHeader does not run after every statement (slot _rule): an empty or code first line could pass unnoticed",
            ch.node, slots=rm.live_slots("CheckHeader"))
     ph = ch.methods.get("parse_header")
-    ok = ph is not None and any(isinstance(n, ast.AugAssign) and text(n.target) == "context.header" for n in walk_fn(ph.node))
-    run.ob("R-13.3", f"{ch.key}::accumulates-comments", ok, "parse_header does not accumulate the leading comment text", ph.node if ph else ch.node)
+    run.ob("R-13.3", f"{ch.key}::accumulates-comments", bad_text is None,
+           (f"after the statements {bad_text[0]} the recogniser is applied to {bad_text[1]!r}, expected once to {bad_text[2]!r} "
+            f"(every leading block comment, in order, each followed by a newline)") if bad_text else "ok",
+           ph.node if ph else ch.node)
 
 
 def rule_isolation(run, prog):
